@@ -851,6 +851,8 @@ impl Ty {
                 64 => Some(i64::MAX as u64),
                 // every u64 literal fits an i128
                 128 => Some(u64::MAX),
+                // isize is at most 64 bits wide on every supported target
+                255 => Some(i64::MAX as u64),
                 _ => None,
             },
             Ty::UInt(bit_width) => match bit_width {
